@@ -672,7 +672,13 @@ fn cli_outputs(bin: &std::path::Path, case: &Case, text: &str, slack: f64, rf: &
             _ => t.violation("C17.cli_output_file_missing", "exit code 0 but one of the --json / --xml / --txt files was not written".into(), wit),
         }
     } else {
-        t.count("cli_rejected_generated_case");
+        // the library evaluated this very building (the caller got a result): a program that does not produce the
+        // three documents for it - usage error, refusal, crash - fails the property at the first step
+        t.violation(
+            "C17.cli_produces_no_documents",
+            format!("the library evaluates the building but `cteepbd ... --json --xml --txt` exits with {:?} (signal {:?}): {}", res.code, res.signal, res.stderr.lines().next().unwrap_or("")),
+            wit,
+        );
     }
     let _ = std::fs::remove_dir_all(&dir);
 }
